@@ -270,8 +270,38 @@ fn run_inner(case: &SketchCase, st: &mut SStats) -> Result<(), Violation> {
 
 const CAPS: [u32; 14] = [0, 1, 2, 3, 3, 5, 5, 8, 100, 128, 129, 200, 1000, 1 << 20];
 
+/// Hashes whose value *after* the sketch's per-depth mixing `(h + seed) * seed` lands
+/// on a numeric boundary (0, 1, 2^32-1, 2^32, 2^63, 2^64-2^32, 2^64-1, ...): the
+/// boundary-directed part of the generator. The four seeds are the sketch's own.
+fn boundary_preimages() -> Vec<u64> {
+    const SEED: [u64; 4] = [0xc3a5_c85c_97cb_3127, 0xb492_b66f_be98_f273, 0x9ae1_6a3b_2f90_404f, 0xcbf2_9ce4_8422_2325];
+    let targets: [u64; 11] = [0, 1, 2, 0xFFFF_FFFF, 0x1_0000_0000, 0x7FFF_FFFF_FFFF_FFFF, 0x8000_0000_0000_0000, 0xFFFF_FFFF_0000_0000, 0xFFFF_FFFF_0000_0001, 0xFFFF_FFFF_FFFF_FFFE, u64::MAX];
+    let mut out = Vec::new();
+    for s in SEED {
+        // modular inverse of the (odd) seed by Newton iteration
+        let mut inv: u64 = s;
+        for _ in 0..6 {
+            inv = inv.wrapping_mul(2u64.wrapping_sub(s.wrapping_mul(inv)));
+        }
+        debug_assert_eq!(s.wrapping_mul(inv), 1);
+        for t in targets {
+            out.push(t.wrapping_mul(inv).wrapping_sub(s));
+        }
+    }
+    out
+}
+
 fn universe_strategy() -> BoxedStrategy<Vec<u64>> {
     prop_oneof![
+        // hashes that hit numeric boundaries inside the sketch's index computation
+        (proptest::collection::vec(any::<u64>(), 0..8), any::<u16>()).prop_map(|(mut v, rot)| {
+            let mut b = boundary_preimages();
+            let n = b.len();
+            b.rotate_left(rot as usize % n);
+            b.truncate(24);
+            b.append(&mut v);
+            b
+        }),
         // uniform
         proptest::collection::vec(any::<u64>(), 1..40),
         // many distinct hashes: covers most counters of a small table
